@@ -147,6 +147,9 @@ func (st *State) assume(t Tm) {
 	if t.Sort != SBool {
 		panic("assume of non-bool " + t.S)
 	}
+	if t.S == "false" && st.x != nil {
+		st.x.falseAssumes++ // a hypothesis that is literally false kills the path: vacuity hazard, reported
+	}
 	st.cmds = append(st.cmds, fmt.Sprintf("(assert %s)", t.S))
 }
 
